@@ -119,6 +119,79 @@ def _gkl_sfi(f, A, S):
 
 
 E("aotools.functions.karhunenLoeve.gkl_sfi", [], lambda r, z: {"ri": r.choice([0.0, 0.2])}, _gkl_sfi)
+
+
+# the helpers of make_kl are public too and take dictionaries (basis, geometry) that the caller keeps and reuses
+def _dict_snapshot(d):
+    return dict((k, (v.copy() if hasattr(v, "copy") and hasattr(v, "shape") else v)) for k, v in d.items())
+
+
+def _dict_unchanged(name, keep, d):
+    import numpy
+    if sorted(map(str, keep)) != sorted(map(str, d)):
+        raise ArgumentContainerModified("%s (keys)" % name)
+    for k, v in keep.items():
+        if hasattr(v, "shape"):
+            _unchanged("%s[%r]" % (name, k), v, numpy.asarray(d[k]) if not hasattr(d[k], "shape") else d[k])
+        elif type(v) is not type(d[k]) or v != d[k]:
+            raise ArgumentContainerModified("%s[%r]" % (name, k))
+
+
+def _dict_items(d):
+    return sorted((str(k), v) for k, v in d.items())
+
+
+def _kl_basis(S):
+    kl = importlib.import_module("aotools.functions.karhunenLoeve")
+    return kl, kl.gkl_basis(S["ri"], 8, None, 6, "kolmogorov")
+
+
+def _set_pctr(f, A, S):
+    kl, bas = _kl_basis(S)
+    keep = _dict_snapshot(bas)
+    out = []
+    for ncp, ncmar in S["calls"]:                  # the same basis used for several geometries
+        out.extend(_dict_items(f(bas, ncp=ncp, ncmar=ncmar)))
+        _dict_unchanged("bas", keep, bas)
+    return out
+
+
+def _pol2car(f, A, S):
+    kl, bas = _kl_basis(S)
+    geom = kl.set_pctr(bas, ncp=S["ncp"], ncmar=S["ncmar"])
+    keep = _dict_snapshot(geom)
+    out = []
+    for i, mask in enumerate(S["masks"]):          # the same geometry used for several functions
+        pol = kl.gkl_sfi(bas, 1 + i)
+        pk = pol.copy()
+        out.append(f(geom, pol, mask) if mask is not None else f(geom, pol))
+        _unchanged("pol", pk, pol)
+        _dict_unchanged("cpgeom", keep, geom)
+    return out
+
+
+def _setpincs(f, A, S):
+    import numpy as np
+    kl = importlib.import_module("aotools.functions.karhunenLoeve")
+    ncp, nr, npp = S["ncp"], 8, 16
+    r = kl.radii(nr, npp, S["ri"])
+    ph = kl.polang(r)
+    px, py = r * np.cos(ph), r * np.sin(ph)
+    ax = (np.reshape(np.arange(ncp * ncp), (ncp, ncp)) % ncp - 0.5 * (ncp - 1)) / (0.5 * (ncp - 4))
+    ay = np.transpose(ax)
+    keep = [a.copy() for a in (ax, ay, px, py)]
+    out = list(f(ax, ay, px, py, S["ri"]))
+    for n, k, a in zip(("ax", "ay", "px", "py"), keep, (ax, ay, px, py)):
+        _unchanged(n, k, a)
+    return out
+
+
+E("aotools.functions.karhunenLoeve.set_pctr", [], lambda r, z: {"ri": r.choice([0.0, 0.2]), "calls": [[r.choice([12, 16]), r.choice([0, 2, None])] for _ in range(r.randint(1, 3))]}, _set_pctr)
+E("aotools.functions.karhunenLoeve.pol2car", [], lambda r, z: {"ri": r.choice([0.0, 0.2]), "ncp": r.choice([12, 16]), "ncmar": r.choice([0, 2]),
+                                                                "masks": [r.choice([None, False, True]) for _ in range(r.randint(1, 3))]}, _pol2car)
+E("aotools.functions.karhunenLoeve.pcgeom", [], lambda r, z: {"ri": r.choice([0.0, 0.2]), "ncp": r.choice([12, 16]), "ncmar": r.choice([0, 2])},
+  lambda f, A, S: _dict_items(f(8, 16, S["ncp"], S["ri"], S["ncmar"])))
+E("aotools.functions.karhunenLoeve.setpincs", [], lambda r, z: {"ri": r.choice([0.0, 0.2]), "ncp": r.choice([12, 16])}, _setpincs)
 E("aotools.functions.karhunenLoeve.gkl_basis", [], lambda r, z: {"ri": r.choice([0.0, 0.2]), "nr": 8, "nfunc": 6},
   lambda f, A, S: sorted((k, v) for k, v in f(S["ri"], S["nr"], None, S["nfunc"], "kolmogorov").items()))
 E("aotools.functions.karhunenLoeve.make_kl", [], lambda r, z: {"nmax": r.choice([3, 5]), "dim": 12, "ri": r.choice([0.0, 0.2]), "mask": r.choice([True, False])},
@@ -335,9 +408,8 @@ EXCLUDED = {
     "aotools.turbulence.infinitephasescreen.PhaseScreen": "abstract base class without constructor",
 }
 
-# internal helpers of the KL module that are importable but only meaningful inside make_kl / gkl_basis (covered through them)
-VIA_PARENT = ["aotools.functions.karhunenLoeve.set_pctr",
-              "aotools.functions.karhunenLoeve.setpincs", "aotools.functions.karhunenLoeve.pcgeom", "aotools.functions.karhunenLoeve.pol2car"]
+# (the helpers of make_kl used to be covered through their parent only; they have entries of their own now)
+VIA_PARENT = []
 
 
 def public_callables():
